@@ -48,7 +48,12 @@ def seed_of(base, i):
     return base * 1000003 + i
 
 
+SWEEP_EVERY = 9
+
+
 def gen(seed, wl, wl_full, full_every):
+    if seed % SWEEP_EVERY == 3:
+        return history.gen_sweep(seed, wl, {'sweep_max_atoms': 300})
     if full_every and seed % full_every == 0 and wl_full is not None:
         return history.gen_history(seed, wl_full, {
             'max_atoms': 100000, 'min_steps': 2, 'max_steps': 3, 'invalid': False})
@@ -139,7 +144,7 @@ def self_test(base, wl, sc, tier, log):
                 'param_text': j['params'].get(call.get('param')) if call.get('param') else None,
                 'suffix': call.get('suffix', '.pdb')}}, dg))
     reqs = reqs[:want]
-    outs = driver.pool_map(lambda r: driver.run_job(r[0], sc), reqs)
+    outs = driver.pool_map(lambda r: driver.run_job(r[0], sc, hashseed=0), reqs)
     bad = 0
     for (rq, dg), o in zip(reqs, outs):
         if 'harness_error' in o:
@@ -439,10 +444,6 @@ def main(argv=None):
         if not args.no_selftest:
             st = self_test(base, wl, sc, tier, log)
             log('self-test: %s' % json.dumps(st))
-            if not st['ok']:
-                for p in st['problems']:
-                    print('HARNESS-ERROR: ' + p)
-                return 2
         agg = Agg()
         regress = regressions(sc, log)
         nsub = explore(base, wl, wl_full, sc, tier, agg, log)
@@ -499,6 +500,14 @@ def main(argv=None):
             ],
         }
         driver.write_evidence(PID, ev)
+        if not st['ok']:
+            # a self-test discrepancy on a tree that also shows violations is
+            # a symptom of them (e.g. results depending on addresses make the
+            # native one-shot differ); alone it is a harness error
+            for p in st['problems'][:6]:
+                print(('NOTE: self-test: ' if nviol else 'HARNESS-ERROR: ') + p)
+            if not nviol:
+                return 2
         if agg.harness:
             for seed, err in agg.harness[:5]:
                 print('HARNESS-ERROR: seed %s: %s' % (seed, err[-1500:]))
